@@ -72,6 +72,7 @@ type Contract struct {
 	Trusted    bool // contract assumed, body not verified (listed in trusted base)
 	PreNames   []string
 	PostNames  []string
+	IfaceMethod bool // contract of an interface method: assumed of every implementation (trusted)
 	File       string
 	Line       int
 }
@@ -107,6 +108,7 @@ type TableSpec struct {
 type ContractSet struct {
 	ByQual    map[string]*Contract
 	ByFn      map[*ssa.Function]*Contract
+	ByIface   map[string]*Contract // "pkg.Iface.Method" -> contract assumed of every implementation
 	List      []*Contract
 	Lemmas    []*Lemma
 	Tables    []*TableSpec
@@ -162,6 +164,7 @@ func allocated[T any](p *T) bool                       { return true }
 func funcIs(f interface{}, name string) bool           { return true }
 func inClass(f interface{}, class string) bool         { return true }
 func nothingModified() bool                            { return true }
+func hasKey[K comparable, V any](m map[K]V, k K) bool  { _, ok := m[k]; return ok }
 func ext[T any](name string, idx int, args ...interface{}) T { var z T; return z }
 func allBytes(b []byte, lo int, f func(c byte) bool) bool { for i := lo; i < len(b); i++ { if !f(b[i]) { return false } }; return true }
 func rangeBytes(b []byte, lo, hi int, f func(c byte) bool) bool { for i := lo; i < hi; i++ { if !f(b[i]) { return false } }; return true }
@@ -173,7 +176,7 @@ var rangeindex int
 `
 
 var preludeNames = []string{"old", "forall", "exists", "forallp", "forallstr", "forallint", "imp", "ite", "addFits", "subFits", "mulFits", "isNaN", "isInf", "sameFloat", "fresh",
-	"typeIs", "streq", "exactDiv", "floorDiv", "popcount", "fabs", "ffloor", "fceil", "fround", "ftrunc", "reachable", "unchanged", "allocated", "funcIs", "inClass", "nothingModified", "rangeindex", "allBytes", "allChars", "rangeBytes", "rangeChars", "ext"}
+	"typeIs", "streq", "exactDiv", "floorDiv", "popcount", "fabs", "ffloor", "fceil", "fround", "ftrunc", "reachable", "unchanged", "allocated", "funcIs", "inClass", "nothingModified", "rangeindex", "allBytes", "allChars", "rangeBytes", "rangeChars", "ext", "hasKey"}
 
 func pkgDirOf(short string) string { return filepath.Join(repoDir, "pkg", short) }
 
@@ -418,6 +421,44 @@ func findFuncDecl(files []*ast.File, name string) *ast.FuncDecl {
 			}
 			if id, ok := rt.(*ast.Ident); ok && id.Name == recv && isPtr == ptr {
 				return fd
+			}
+		}
+	}
+	return nil
+}
+
+// findIfaceMethod: "Iface.Method" -> a synthetic declaration (receiver named recv)
+func findIfaceMethod(files []*ast.File, name string) *ast.FuncDecl {
+	i := strings.Index(name, ".")
+	if i < 0 || strings.HasPrefix(name, "(") {
+		return nil
+	}
+	tname, mname := name[:i], name[i+1:]
+	for _, f := range files {
+		for _, d := range f.Decls {
+			gd, ok := d.(*ast.GenDecl)
+			if !ok {
+				continue
+			}
+			for _, sp := range gd.Specs {
+				ts, ok := sp.(*ast.TypeSpec)
+				if !ok || ts.Name.Name != tname {
+					continue
+				}
+				it, ok := ts.Type.(*ast.InterfaceType)
+				if !ok {
+					continue
+				}
+				for _, m := range it.Methods.List {
+					if len(m.Names) == 1 && m.Names[0].Name == mname {
+						if ft, ok := m.Type.(*ast.FuncType); ok {
+							return &ast.FuncDecl{
+								Recv: &ast.FieldList{List: []*ast.Field{{Names: []*ast.Ident{ast.NewIdent("recv")}, Type: ast.NewIdent(tname)}}},
+								Name: ast.NewIdent(mname), Type: ft,
+							}
+						}
+					}
+				}
 			}
 		}
 	}
@@ -697,6 +738,13 @@ func (cs *ContractSet) buildOverlay() error {
 			}
 			fd := findFuncDecl(files, c.FuncName)
 			if fd == nil {
+				if ifd := findIfaceMethod(files, c.FuncName); ifd != nil {
+					fd = ifd
+					c.IfaceMethod = true
+					c.Trusted = true
+				}
+			}
+			if fd == nil {
 				// drift: reported by the checker (function named by a contract no longer exists)
 				continue
 			}
@@ -797,6 +845,13 @@ func (cs *ContractSet) buildOverlay() error {
 func (cs *ContractSet) resolve(l *Loaded) []string {
 	var drift []string
 	for _, c := range cs.List {
+		if c.IfaceMethod {
+			if cs.ByIface == nil {
+				cs.ByIface = map[string]*Contract{}
+			}
+			cs.ByIface[c.Pkg+"."+c.FuncName] = c
+			continue
+		}
 		c.Fn = l.findFunc(c.Qual)
 		if c.Fn == nil || c.Decl == nil {
 			drift = append(drift, c.Qual)
